@@ -86,6 +86,11 @@ pub fn determinism(name: &str, wasm: &[u8], out: &mut Vec<Json>) {
 
 /// C14: configuration switches.
 pub fn config(name: &str, wasm: &[u8], out: &mut Vec<Json>) {
+    // DWARF: debug sections are carried over exactly when generate_dwarf is on, whatever the other switches say
+    if let Ok(a0) = amod::decode(wasm) { if !a0.code.is_empty() && a0.code.len() < 40 { if let Some(input) = crate::c10::synthesize(wasm, &a0, crate::c10::DCfg { version: 4, one_seq: false, file0: false }) {
+        for (gd, pct, names) in [(false, false, true), (false, true, true), (true, false, false), (true, true, true), (false, true, false)] {
+            let r = catch(|| { let mut c = ModuleConfig::new(); c.generate_dwarf(gd).preserve_code_transform(pct).generate_name_section(names).generate_producers_section(false); let mut m = c.parse(&input).ok()?; amod::decode(&m.emit_wasm()).ok() }).flatten();
+            if let Some(b) = r { let has = b.customs.iter().any(|c| c.0.starts_with(".debug")); if has != gd { out.push(v("dwarf-switch-ignored", "C14", format!("{}: generate_dwarf({}) preserve_code_transform({}) generate_name_section({}): the output {} .debug sections", name, gd, pct, names, if has { "has" } else { "has no" }), &input, format!("{:?}", b.sections), String::new())); } } } } } }
     let run = |names: bool, prod: bool| -> Option<AMod> { catch(|| { let mut c = ModuleConfig::new(); c.generate_name_section(names).generate_producers_section(prod); let mut m = c.parse(wasm).ok()?; amod::decode(&m.emit_wasm()).ok() }).flatten() };
     let strip = |a: &AMod, what: &str| -> Vec<(String, Vec<u8>)> { let mut v: Vec<(String, Vec<u8>)> = vec![]; for s in &a.sections { if s == &format!("custom:{}", what) { continue; } v.push((s.clone(), vec![])); } v };
     if let (Some(full), Some(no_names), Some(no_prod)) = (run(true, true), run(false, true), run(true, false)) {
